@@ -306,7 +306,7 @@ Proof.
   assert (Ea : a = N.min t (pre_id st)) by (subst a; destruct (N.ltb_spec (pre_id st) t); lia).
   assert (Lp : com_id st <= pre_id st).
   { unfold com_id, pre_id, chain. rewrite lenN_app. lia. }
-  set (st0 := {| s_com := s_com st; s_tail := s_tail st; s_allowed := a; s_hold := s_hold st; s_ghost := s_ghost st |}) in *.
+  set (st0 := {| s_com := s_com st; s_tail := s_tail st; s_allowed := a; s_ghost := s_ghost st; s_cap := s_cap st |}) in *.
   inversion E; subst st'; clear E.
   destruct (may_commit_ext st0) as (A & B & C & D).
   - change (com_id st0) with (com_id st). change (s_allowed st0) with a. lia.
@@ -404,7 +404,7 @@ Definition ystep (y : sys) (o : sop) : sys :=
   end.
 
 Definition yrun (n : nat) (ops : list sop) : sys :=
-  fold_left ystep ops {| y_p := primary_init; y_r := repeat store_init n |}.
+  fold_left ystep ops {| y_p := primary_init; y_r := repeat (store_open c) n |}.
 
 (* what holds of every replica *)
 Definition RInv (p : primary) (st : store) : Prop :=
@@ -486,7 +486,7 @@ Proof.
   - apply on_replica_inv; [split; auto|]. intros st I. apply ext_restart; auto.
 Qed.
 
-Lemma YInv_init n : YInv {| y_p := primary_init; y_r := repeat store_init n |}.
+Lemma YInv_init n : YInv {| y_p := primary_init; y_r := repeat (store_open c) n |}.
 Proof.
   split; [apply PInv_init|]. cbn [y_p y_r]. intros st I. apply repeat_spec in I. subst.
   split; [reflexivity|]. split; [cbn; lia | left; reflexivity].
@@ -494,7 +494,7 @@ Qed.
 
 Lemma yrun_inv n ops : YInv (yrun n ops).
 Proof.
-  unfold yrun. generalize (YInv_init n). generalize {| y_p := primary_init; y_r := repeat store_init n |}.
+  unfold yrun. generalize (YInv_init n). generalize {| y_p := primary_init; y_r := repeat (store_open c) n |}.
   induction ops as [|o ops IH]; intros y Iy; simpl; auto. apply IH. apply ystep_inv; auto.
 Qed.
 
